@@ -1,6 +1,6 @@
 ENTRY = dict(
     gen=["suites"],
-    runner="C25", pkg="./cmd/c25", corr=["Corr.C25Corr"], n=dict(quick=1, thorough=1), runner_timeout=2400,
+    runner="C25", pkg="./cmd/c25", corr=["Corr.C25Corr"], n=dict(quick=150, thorough=1500), runner_timeout=2400, race_suite="C25race",
     rule="every (version, suite) that the crypto/tls server of the toolchain negotiates with uTLS, taken from the real suite "
          "table (TLS 1.0/1.1: 11 suites each, TLS 1.2: 22, TLS 1.3: 3): a uTLS client (spec offering exactly that pair) "
          "handshakes over loopback TCP; 1 session per pair (thorough 6) of client writes (sizes from {0,1,2,15,16,17,1186..1188,"
@@ -14,7 +14,11 @@ ENTRY = dict(
          "experiment, UConn.Read, panic = failure) for EVERY suite of the table incl. the weak CBC suites x versions 1.0-1.2: the first "
          "record truncated to every shorter length (header adjusted), the stream cut at every offset, one bit flipped at every byte; "
          "empty-record patterns with the model predicting bytes delivered / error. Distinct by (suite, version, session/pattern); "
-         "non-trivial when more than 3 records.",
+         "non-trivial when more than 3 records. Race suite C25race (run under the race detector): 3 (thorough 9) TLS 1.3 "
+         "connections with the uTLS server; on each side two writer goroutines write numbered 64-byte chunks continuously, a "
+         "reader goroutine verifies the peer's chunks (and answers its KeyUpdate requests inside Read), and a third goroutine sends "
+         "n = 150 (thorough 1500) KeyUpdate(update_requested) with random pauses; oracle: every chunk arrives intact and in its "
+         "writer's order, no call fails, no data race reported.",
     trusted_base=["hooks/verif_c27.go (suite table, record state), hooks/verif_c25.go (VerifSendKeyUpdate), hooks/verif_c28.go (VerifWriteEmptyRecord): test equipment",
                   "the uTLS server (same record layer) as the peer for key-update and empty-record histories",
                   "crypto/tls server of the Go toolchain as the compliant peer",
